@@ -49,7 +49,7 @@ fn leaves<S: ShortGroupSignatureScheme>(v: &Value) -> Result<BTreeMap<&'static s
     let ipub2 = credx::issuer::IssuerPublic::from(&issuer);
     let sig_st = SignatureStatement { disclosed, id: "s".to_string(), issuer: ipub2.clone() };
     let rev_st = RevocationStatement { id: "r".to_string(), reference_id: "s".to_string(), accumulator: ipub2.revocation_registry, verification_key: ipub2.revocation_verifying_key, claim: 0 };
-    let schema = PresentationSchema::new(&[sig_st.into(), rev_st.into()]);
+    let schema = if v["norev"] == true { PresentationSchema::new(&[sig_st.into()]) } else { PresentationSchema::new(&[sig_st.into(), rev_st.into()]) };
     let mut creds: IndexMap<String, PresentationCredential<S>> = IndexMap::new();
     creds.insert("s".to_string(), bundle.credential.clone().into());
     let p = Presentation::create(&creds, &schema, b"nonce").map_err(|e| format!("{e:?}"))?;
@@ -159,6 +159,28 @@ pub fn run(op: &str, v: &Value) -> Value {
                 Ok(None) => json!({"r":"none"}),
                 Err(_) => json!({"r":"panic","at":last_panic()}),
             }
+        }
+        "d_codec_points" => {
+            // which 48- / 96-byte windows (at offsets that are multiples of 4) decode as compressed points
+            use blsful::inner_types::{G1Affine, G2Affine};
+            let b = hex::decode(v["b"].as_str().unwrap_or("")).unwrap_or_default();
+            let mut g1 = std::collections::BTreeSet::new();
+            let mut g2 = std::collections::BTreeSet::new();
+            let mut o = 0;
+            while o + 48 <= b.len() {
+                let a: [u8; 48] = b[o..o + 48].try_into().unwrap();
+                if bool::from(G1Affine::from_compressed(&a).is_some()) {
+                    g1.insert(hex::encode(a));
+                }
+                if o + 96 <= b.len() {
+                    let a2: [u8; 96] = b[o..o + 96].try_into().unwrap();
+                    if bool::from(G2Affine::from_compressed(&a2).is_some()) {
+                        g2.insert(hex::encode(a2));
+                    }
+                }
+                o += 4;
+            }
+            json!({"r":"ok","g1":g1.into_iter().collect::<Vec<_>>(),"g2":g2.into_iter().collect::<Vec<_>>()})
         }
         _ => json!({"r":"harness-error","msg":"unknown codec op"}),
     }
